@@ -414,8 +414,13 @@ static int tar_probe(const sqfs_u8 *data, size_t size)
 	if (size < sizeof(hdr))
 		return 0;
 
-	if (memcmp(data + offset, "ustar", 5) != 0)
-		return 0;
+	/* the old V7 format has no magic, the field is zero */
+	if (memcmp(data + offset, "ustar", 5) != 0) {
+		for (i = 0; i < sizeof(hdr.magic) + sizeof(hdr.version); ++i) {
+			if (data[offset + i] != 0x00)
+				return 0;
+		}
+	}
 
 	memcpy(&hdr, data, sizeof(hdr));
 
